@@ -49,7 +49,9 @@ class Wrapped:
 
 
 def scenario(calls, close_before=False, via_eventloopthread=False, burst=1):
-    """calls: list of (kind, src).  Returns {'caller': [...], 'owner': [...]}"""
+    """calls: list of (kind, src) or (kind, src, look).  look = the loop on which the proxy attribute is looked up
+    (default: the calling loop); a bound wrapper fetched on one loop and invoked from the other must behave like a
+    call made from the invoking loop.  Returns {'caller': [...], 'owner': [...]}"""
     from bellows.thread import EventLoopThread, ThreadsafeProxy
     obj = Wrapped()
     caller_log = []
@@ -77,9 +79,11 @@ def scenario(calls, close_before=False, via_eventloopthread=False, burst=1):
     def classify(exc):
         return "typeerror" if isinstance(exc, TypeError) else "exc"
 
-    async def one(i, kind, closed_flag, log):
+    async def one(i, kind, closed_flag, log, pre=None):
         t0 = time.monotonic()
-        ev = {"a": "invoke", "i": i, "kind": kind, "src": "other" if threading.get_ident() != obj.owner_ident else "owner",
+        src = "other" if threading.get_ident() != obj.owner_ident else "owner"
+        ev = {"a": "invoke", "i": i, "kind": kind, "src": src,
+              "look": src if pre is None else ("owner" if src == "other" else "other"),
               "closed": closed_flag, "ret": "", "execthread": ""}
         n0 = len(obj.log)
         try:
@@ -87,7 +91,7 @@ def scenario(calls, close_before=False, via_eventloopthread=False, burst=1):
                 r = proxy.not_callable
                 ev["ret"] = "val"
             else:
-                r = getattr(proxy, kind)(i)
+                r = pre(i) if pre is not None else getattr(proxy, kind)(i)
                 if asyncio.isfuture(r) or asyncio.iscoroutine(r):
                     ev["ret"] = "pending"
                 elif r is None:
@@ -117,7 +121,18 @@ def scenario(calls, close_before=False, via_eventloopthread=False, burst=1):
                 fin["val"] = int(e.args[0]) if e.args and isinstance(e.args[0], int) else -1
             log.append(fin)
 
+    async def lookup(kind):
+        return getattr(proxy, kind)
+
     async def from_other():
+        # wrappers looked up on the loop that will NOT make the call (fetched while the owner's loop still runs)
+        pres = {}
+        for k, c in enumerate(calls):
+            if len(c) > 2 and c[2] != c[1] and c[0] != "notCallable":
+                if c[2] == "owner":
+                    pres[k + 1] = await asyncio.wrap_future(asyncio.run_coroutine_threadsafe(lookup(c[0]), owner_loop))
+                else:
+                    pres[k + 1] = await lookup(c[0])
         if close_before:
             owner_loop.call_soon_threadsafe(owner_loop.stop)
             th.join(30)
@@ -125,15 +140,16 @@ def scenario(calls, close_before=False, via_eventloopthread=False, burst=1):
         groups = [calls[k:k + burst] for k in range(0, len(calls), burst)]
         for g in groups:
             tasks = []
-            for (kind, src) in g:
+            for c in g:
+                kind, src = c[0], c[1]
                 idx += 1
                 if src == "other":
-                    tasks.append(one(idx, kind, 1 if close_before else 0, caller_log))
+                    tasks.append(one(idx, kind, 1 if close_before else 0, caller_log, pres.get(idx)))
                 else:
                     if close_before:
                         continue
                     # a call made from the owner's own loop
-                    fut = asyncio.run_coroutine_threadsafe(one(idx, kind, 0, caller_log), owner_loop)
+                    fut = asyncio.run_coroutine_threadsafe(one(idx, kind, 0, caller_log, pres.get(idx)), owner_loop)
                     tasks.append(asyncio.wrap_future(fut))
             if tasks:
                 await asyncio.gather(*tasks)
@@ -168,10 +184,15 @@ def run(ctx: Ctx):
         for src in ("other", "owner"):
             scen.append(([(kind, src)], False, 1))
         scen.append(([(kind, "other")], True, 1))
+        if kind != "notCallable":
+            # the bound wrapper is fetched on one loop and invoked from the other
+            scen.append(([(kind, "other", "owner")], False, 1))
+            scen.append(([(kind, "owner", "other")], False, 1))
+            scen.append(([(kind, "other", "owner")], True, 1))
     rng = ctx.rng
     for burst in (10, 100) if not ctx.quick else (10, 40):
         for _ in range(3 if ctx.quick else 10):
-            calls = [(rng.choice(KINDS), rng.choice(("other", "other", "owner"))) for _ in range(burst)]
+            calls = [(rng.choice(KINDS), rng.choice(("other", "other", "owner")), rng.choice(("other", "owner"))) for _ in range(burst)]
             scen.append((calls, False, burst))
         scen.append(([(rng.choice(KINDS), "other") for _ in range(burst)], True, burst))
     reps = 3 if ctx.quick else 25
@@ -183,12 +204,12 @@ def run(ctx: Ctx):
     ctx.evaluations = len(traces)
     ctx.distinct_nontrivial = len({str((m["calls"], m["closed"], m["burst"])) for m in metas})
     ctx.rule = ("every method kind (coroutine returning / raising, plain returning nothing / a value / raising, non-callable attribute) x caller loop "
-                "{owner's own loop, another thread's loop} x owner-loop state {running, closed} as single calls, and bursts of 10 and 40/100 concurrent mixed calls; "
+                "{owner's own loop, another thread's loop} x loop on which the proxy attribute was looked up {same, the other one} x owner-loop state {running, closed} as single calls, and bursts of 10 and 40/100 concurrent mixed calls; "
                 f"each scenario repeated {reps} times with real threads; distinct = distinct (calls, owner state, burst)")
     ctx.add_sample({"meta": metas[0], "trace": traces[0]})
 
     def sig(meta, v, tr):
-        return f"trace:ThreadProxy:closed={meta['closed']}:burst={meta['burst']}:kinds={','.join(sorted({k for k, _s in meta['calls']}))[:60]}"
+        return f"trace:ThreadProxy:closed={meta['closed']}:burst={meta['burst']}:kinds={','.join(sorted({c[0] for c in meta['calls']}))[:60]}"
     ctx.validate_traces("Trace_ThreadProxy", traces, metas=metas, label="thread proxy", sig=sig, length_of=length_of, dfs=True)
     ctx.exhaustive = False
     ctx.assumptions += ["real OS threads: schedules are sampled, not enumerated; verdicts depend only on per-thread order (TLC searches for an explaining interleaving)",
